@@ -215,6 +215,33 @@ theorem C05_speed_change_immediate (c : Clock ℝ) (info : Info ℝ) (s : ClockS
     simp only [Clock.run]
     rw [hval2, hval1, hup.1, List.sum_cons]; ring
 
+/-- **a speed tween is the linear interpolation in the target speed's unit** (over ℝ, where every
+    conversion is finite): `ClockSpeed::interpolate(a, b, t)` converts the start into the unit of the
+    target and interpolates there; it lands exactly on the target at `t = 1`. -/
+theorem C05_speed_interpolation (a b : ClockSpeed ℝ) (t : ℝ) :
+    ClockSpeed.lerp a b t = ClockSpeed.lerpInTargetUnit a b t ∧ ClockSpeed.lerp a b 1 = b := by
+  constructor
+  · simp [ClockSpeed.lerp]
+  · cases b <;> simp [ClockSpeed.lerp, ClockSpeed.lerpInTargetUnit, lerp64]
+
+/-- **a speed tween never manufactures a NaN speed** (every number type, in particular the floats the twin
+    runs — repaired: a clock at 0 ticks per second retargeted with a tween to a `SecondsPerTick` speed used to
+    get `inf + (b − inf)·t = NaN` as its speed, and its time stayed NaN until `stop()`): the interpolated
+    speed is finite in its unit; or it was computed in the unit of the starting speed and is not NaN (it may
+    be infinite when the TARGET is an infinite speed: the clock then saturates, `C05_infinite_speed_saturates`);
+    or it is the starting speed itself. -/
+theorem C05_speed_interpolation_never_nan {α : Type} [Add α] [Sub α] [Mul α] [Div α] [Neg α] [LT α] [LE α]
+    [DecidableLT α] [DecidableLE α] [OfScientific α] [KOps α] (a b : ClockSpeed α) (t : α) :
+    KOps.isFinite (ClockSpeed.lerp a b t).raw = true
+      ∨ KOps.isNaN (ClockSpeed.lerp a b t).raw = false
+      ∨ ClockSpeed.lerp a b t = a := by
+  unfold ClockSpeed.lerp
+  by_cases h1 : KOps.isFinite (ClockSpeed.lerpInTargetUnit a b t).raw = true
+  · left; simp [h1]
+  · by_cases h2 : KOps.isNaN (ClockSpeed.lerpInStartUnit a b t).raw = true
+    · right; right; simp [h1, h2]
+    · right; left; simp [h1, h2]
+
 /-- **a speed tween scheduled on a clock time waits for it**: while the `Info` the clock is
     updated with does not say `Now` for that time, the tween has not begun (its state, with tween
     time 0, is untouched) — for every value type. -/
